@@ -71,7 +71,7 @@ func (o *Out) Close() {
 	o.obs.Flush()
 	o.fc.Close()
 	o.fo.Close()
-	m := map[string]interface{}{"stats": o.Stats, "samples": o.Samples, "cases": o.n}
+	m := map[string]interface{}{"stats": o.Stats, "samples": o.Samples, "cases": o.n, "distribution": dist}
 	b, _ := json.MarshalIndent(m, "", " ")
 	os.WriteFile(filepath.Join(o.dir, "meta.json"), b, 0o644)
 }
